@@ -336,11 +336,17 @@ func (r *router) Routes(routePath, methods string, handlers ...Handler) *Route {
 		ms = append(ms, m)
 	}
 
-	var route *Route
+	// The returned route wraps leaves of all methods
+	leaves := make(map[string]route.Leaf, len(ms))
 	for _, m := range ms {
-		route = r.Route(m, routePath, handlers)
+		for method, leaf := range r.Route(m, routePath, handlers).leaves {
+			leaves[method] = leaf
+		}
 	}
-	return route
+	return &Route{
+		router: r,
+		leaves: leaves,
+	}
 }
 
 func (r *router) NotFound(handlers ...Handler) {
